@@ -3,6 +3,7 @@ package hsim
 import (
 	"fmt"
 	"github.com/aukilabs/hagall-common/messages/vikjapb"
+	"os"
 	"sort"
 	"strings"
 	"time"
@@ -534,6 +535,12 @@ func (r *runner) runBlock(steps []Step) {
 		} else {
 			cd.diffs = len(r.serverDiffs(mc))
 			cd.relay = r.blockRelays(mc, cd.outs, reqs, before)
+		}
+		if os.Getenv("HSIM_DEBUG_BLOCK") != "" {
+			fmt.Printf("block candidate %v: bad=%v diffs=%d relay=%q\n", perm, cd.bad, cd.diffs, cd.relay)
+			if len(cd.bad) == 0 {
+				fmt.Printf("   server diffs: %v\n", r.serverDiffs(mc))
+			}
 		}
 		if better(cd, best) {
 			best = cd
